@@ -19,7 +19,9 @@ RULE = ("kernel-shaped inputs drawn from the theorem's domain and printed by the
         "state changed in between (link present / withheld with ENOENT or ESRCH / denied with EACCES; cmdline()[0] an executable file, a "
         "plain 0644 file, a searchable 0755 directory incl. '/' and a trailing-slash directory, dangling, relative -- each really put on "
         "disk, isabs/isfile/access(X_OK) answered separately by the file system); (comm, argv) pairs "
-        "around the 15-byte boundary (ASCII, multi-byte, truncated inside a character); 24 LIVE children on the running kernel (chosen argv / environment entries / cwd / executable file / "
+        "around the 15-byte boundary (ASCII, multi-byte, truncated inside a character); SIZE: 6 fake-tree and 2 live processes whose cmdline (40-222 KiB) and environ (60-166 KiB) are described by repetition and expanded "
+        "inside Gallina (400 arguments, one 100 KiB argument, NUL exactly at offsets 32767 / 32768, boundary inside an entry, non-ASCII content), "
+        "compared through digests; 24 LIVE children on the running kernel (chosen argv / environment entries / cwd / executable file / "
         "overwritten title / zombie: predicted /proc bytes compared with the real ones, then psutil over the real /proc); zombies (every pool name cut at 15 and 14 bytes: name(), cmdline(), exe(), cwd()); processes being torn down (stat absent "
         "with or without the directory, probe refused); name() histories on one object (the process_iter() instance in 40 %: name()/repr()/as_dict()/process_iter(['name']) calls while "
         "comm stays and the command line is rewritten to another basename with the same 15-byte prefix, overwritten by a title, emptied, or the "
@@ -45,7 +47,7 @@ ASSUMPTIONS = ["CPython semantics of str.split/find/endswith/startswith, text-mo
                "parsing of the stat record (comm between the parentheses, state letter) is C06's subject; here comm and the zombie flag are inputs"]
 EXHAUSTIVE = {
     "quick": "all 156 argv of <=3 args over {'', 'a', ' ', 'a b', 'a '}; all 117 titles of <=3 words over {'', 'a', 'b'} x {none, space, NUL}; "
-             "exe() fallback: 15 (cmdline()[0], kind on disk) pairs x {ENOENT, ESRCH, EACCES}; existence probe of marked link targets: 8 injected "
+             "8 large cmdline/environ files (40-222 KiB) incl. 2 live children; exe() fallback: 15 (cmdline()[0], kind on disk) pairs x {ENOENT, ESRCH, EACCES}; existence probe of marked link targets: 8 injected "
              "errnos + 6 real file-system states x {exe, cwd} x {no garbage, NUL garbage}; all 156 cmdline files of <=3 bytes over "
              "{NUL, ' ', 'a', CR, LF} against the documented rule",
     "thorough": "all 156 argv of <=3 args over {'', 'a', ' ', 'a b', 'a '}; all 117 titles of <=3 words over {'', 'a', 'b'} x {none, space, NUL}; "
@@ -313,6 +315,78 @@ UDEC_ALPHA = [0x41, 0x7f, 0x80, 0xbf, 0xc0, 0xc1, 0xc2, 0xc3, 0xa9, 0xdf, 0xe0, 
               0xf4, 0xf5, 0xff, 0xe2, 0x82, 0xac, 0x00, 0x0d]
 
 
+# ------------------------------------------------------------------ large inputs: descriptors, Python mirror of Spec.expand_* and of Run's digests
+M63 = (1 << 63) - 1
+
+
+def _hbytes(a, b):
+    for x in b:
+        a = (a * 1000003 + x + 1) & M63
+    return a
+
+
+def _dig_bytes(b):
+    return [len(b), _hbytes(7, b)]
+
+
+def _dig_list(ls):
+    a = 7
+    for l in ls:
+        a = (_hbytes(a, l) * 1000003 + 256 + 1) & M63
+    return [len(ls), a, B((ls[0] if ls else b"")[:64]), B((ls[-1] if ls else b"")[:64])]
+
+
+def _bg(unit, n, tail=b"", times=1):
+    return {"unit": h(unit), "n": n, "tail": h(tail), "times": times}
+
+
+def _big_arg(g):
+    return unh(g["unit"]) * g["n"] + unh(g["tail"])
+
+
+def _expand_args(gs):
+    return [a for g in gs for a in [_big_arg(g)] * g["times"]]
+
+
+def _expand_env(es):
+    out, i = [], 0
+    for e in es:
+        v = _big_arg(e["value"])
+        for _ in range(e["value"]["times"]):
+            out.append(unh(e["prefix"]) + str(i).encode() + b"=" + v)
+            i += 1
+    return out
+
+
+def _g_bg(g):
+    return "(Build_bgroup %s (Z.to_nat %d) %s (Z.to_nat %d))" % (G.by(unh(g["unit"])), g["n"], G.by(unh(g["tail"])), g["times"])
+
+
+A0_BIG = b"/usr/bin/gnome-keyring-daemon"
+
+
+def _big_cases():
+    a0 = _bg(b"", 0, A0_BIG)
+    k = len(A0_BIG) + 1                 # bytes of cmdline taken by argv[0] and its NUL
+    e0 = lambda n: {"prefix": h(b"V"), "value": _bg(b"v", n, b"", 1)}     # entry "V0=" + n*"v" + NUL : n + 4 bytes
+    many_vars = {"prefix": h(b"VAR_"), "value": _bg(b"val", 30, b"=\n;", 600)}
+    mk = lambda cls, gs, es, live=False: {"kind": "big", "cls": ("biglive-" if live else "big-") + cls, "comm": h(A0_BIG.split(b"/")[-1][:15]),
+                                          "groups": gs, "egroups": es, "live": live}
+    return [
+        mk("400-args", [a0, _bg(b"0123456789", 10, b"", 400)], [many_vars]),
+        mk("one-100KiB-arg", [a0, _bg(b"x", 102400), _bg(b"", 0, b"last")], [{"prefix": h(b"BIG"), "value": _bg(b"y", 102400)}, many_vars]),
+        mk("nul-at-32767", [a0, _bg(b"a", 32767 - k), _bg(b"b", 40000), _bg(b"", 0, b"")], [e0(32767 - 3), many_vars]),
+        mk("nul-at-32768", [a0, _bg(b"a", 32768 - k), _bg(b"b c", 3000, b"", 3)], [e0(32768 - 3), many_vars]),
+        mk("boundary-inside", [a0, _bg(b"a", 32768 - k - 5, b"=tail with spaces ", 2), _bg(b"q", 7, b"", 2000)], [e0(32760), many_vars]),
+        mk("non-ascii-chars-vs-bytes", [a0, _bg(b"\xc3\xa9", 40000), _bg(b"\xff", 35000, b"\xe2\x82"), _bg(b"\xe2\x82\xac", 11, b"", 900)],
+           [{"prefix": h(b"U"), "value": _bg(b"\xc3\xa9", 33000, b"\r\n")}, {"prefix": h(b"X\xff"), "value": _bg(b"\xff\xfe", 20000)}]),
+        mk("args-and-env", [a0, _bg(b"arg ", 75, b"", 400), _bg(b"z", 102400)],
+           [{"prefix": h(b"E"), "value": _bg(b"0123456789", 10, b"", 600)}, {"prefix": h(b"HUGE"), "value": _bg(b"w", 102400)}], live=True),
+        mk("non-ascii", [a0, _bg(b"\xc3\xa9", 45000), _bg(b"", 0, b"", 3), _bg(b"\xff", 33000)],
+           [{"prefix": h(b"U"), "value": _bg(b"\xc3\xa9", 34000)}, {"prefix": h(b"N"), "value": _bg(b"n", 1, b"", 700)}], live=True),
+    ]
+
+
 def _live_cases():
     B = PVBASE
     def lc(cls, argv=None, env=None, exe=B + b"/bin/prog", cwd=B + b"/wd", exe_unlink=False, cwd_rmdir=False, title=None, mode=None,
@@ -477,6 +551,9 @@ def gen_cases(rng, tier):
     # live: real children on the running kernel (validates k_cmdline / k_environ / k_link and comm truncation; see props/_c12_live.py)
     if tier != "search":
         cases.extend(_live_cases())
+        # SIZE: /proc/<pid>/cmdline and environ far beyond any read buffer (40-250 KiB), the 32768 boundary inside an entry / on a NUL,
+        # characters vs bytes; on the fake tree and on two live children
+        cases.extend(_big_cases())
     # name() histories on one object: the kernel name stays, the command line changes between the calls
     def _nstate(comm, cmd=None, zombie=False):
         return {"comm": h(comm), "cmd": cmd or {"form": "argv", "parts": [], "term": "nul"}, "zombie": zombie}
@@ -620,6 +697,9 @@ def coq_term(case):
         return "run_env_bytes %s %s" % (MODEL_CFG, G.by(unh(case["data"])))
     if k == "uenc":
         return "run_uenc %s" % G.zs(case["cps"])
+    if k == "big":
+        es = G.lst(["(Build_egroup %s %s)" % (G.by(unh(e["prefix"])), _g_bg(e["value"])) for e in case["egroups"]])
+        return "run_big %s %s %s %s" % (MODEL_CFG, G.by(unh(case["comm"])), G.lst([_g_bg(g) for g in case["groups"]]), es)
     if k == "live":
         if case["zombie"]:
             return "run_zombie %s %s false" % (MODEL_CFG, G.by(_live_comm(case)))
@@ -677,6 +757,9 @@ def coq_struct(case, raw):
         return {"printed": raw[0], "model": raw[1], "spec": raw[2], "aux": [raw[3]]}
     if k == "nhist":
         return {"printed": raw[0], "model": raw[1], "spec": raw[2]}
+    if k == "big":
+        cut = (lambda l: l[:2]) if case["live"] else (lambda l: l)
+        return {"printed": raw[0], "model": cut(raw[1]), "spec": None if raw[2] is None else cut(raw[2])}
     if k == "live":
         if case["zombie"] or case["title"] is not None:
             return {"model": raw[0], "spec": raw[1]}
@@ -1024,6 +1107,55 @@ def _run_live(case, coq, psutil, K, env):
         L.reap(proc)
 
 
+def _dig_cmdline(p):
+    return outcome(p.cmdline, lambda l: _dig_list([os.fsencode(x) for x in l]))
+
+
+def _dig_environ(p):
+    return outcome(p.environ, lambda d: _dig_list([os.fsencode(k_) + b"=" + os.fsencode(v_) for k_, v_ in d.items()]))
+
+
+def _run_big(case, coq, psutil, p, K, env):
+    """cmdline/environ files of 40-250 KiB: the bytes are regenerated here from the descriptor and must have the digest of the
+    bytes Coq's printers produced; results are compared through digests (count, 63-bit hash, first, last element)"""
+    argv, envl = _expand_args(case["groups"]), _expand_env(case["egroups"])
+    cmd_bytes = b"".join(a + b"\x00" for a in argv)
+    env_bytes = b"".join(e + b"\x00" for e in envl)
+    if [_dig_bytes(cmd_bytes), _dig_bytes(env_bytes)] != coq["printed"]:
+        raise RuntimeError("C12 big: the harness's expansion of the descriptor disagrees with Spec.expand_*/k_cmdline/k_environ")
+    if case["live"]:
+        from props import _c12_live as L
+        import shutil
+        child = L.build_child(env["work"])
+        shutil.rmtree(K.realbase, ignore_errors=True)
+        os.makedirs(K.realbase)
+        lc = {"exe_path": h(PVBASE + b"/bin/prog"), "cwd_path": h(PVBASE + b"/wd"), "argv": [h(a) for a in argv], "env": [h(e) for e in envl],
+              "exe_unlink": False, "cwd_rmdir": False}
+        old_root = psutil.PROCFS_PATH
+        proc = L.spawn(lc, K.realbase, child, K.rebase)
+        try:
+            real = L.real_bytes(proc.pid)
+            if [_dig_bytes(real["cmdline"]), _dig_bytes(real["environ"])] != coq["printed"]:
+                raise L.LiveMismatch("big: kernel cmdline/environ (%d / %d bytes) differ from the Spec printers (%r)" % (
+                    len(real["cmdline"]), len(real["environ"]), coq["printed"]))
+            psutil.PROCFS_PATH = "/proc"
+            psutil._pslinux.BOOT_TIME = None
+            q = psutil.Process(proc.pid)
+            return [_dig_cmdline(q), _dig_environ(q)]
+        finally:
+            psutil.PROCFS_PATH = old_root
+            psutil._pslinux.BOOT_TIME = None
+            L.reap(proc)
+    v = {"pdir": True, "stat": "S", "comm": case["comm"], "cmdline": ["data", h(cmd_bytes)], "environ": ["data", h(env_bytes)],
+         "exe": ["ENOENT"], "cwd": ["ENOENT"], "paths": [[h(argv[0]), "regx"]]}
+    K.install()
+    try:
+        K.apply(v, "exe", None)
+        return [_dig_cmdline(p), _dig_environ(p), _call(p, "name"), _call(p, "exe")]
+    finally:
+        K.uninstall()
+
+
 def _run_nhist(case, coq, psutil, p, K):
     """one Process object (optionally the instance process_iter() caches and reuses); before each call the kernel state is
     replaced (same pid, same start time): comm, cmdline, zombie or not"""
@@ -1077,6 +1209,8 @@ def impl_run(case, coq, env):
         return _run_hist(case, coq, p, K)
     if case["kind"] == "nhist":
         return _run_nhist(case, coq, psutil, p, K)
+    if case["kind"] == "big":
+        return _run_big(case, coq, psutil, p, K, env)
     steps = _steps_of(case, coq)
     res = []
     K.install()
